@@ -56,11 +56,46 @@ pub fn scale(tier: Tier, quick: u64, thorough: u64) -> u64 {
     }
 }
 
+/// The property's own profile with every operation it leaves out switched on at a low weight (and, for file-backed
+/// cases, close + reopen in all four modes): op families interact - truncate inside a copy-on-write session,
+/// clear before a reopen, a clone made before a rewind - and a profile that is tuned to one property never
+/// produces those histories. The interpreter respects every operation's contract itself, so the property's
+/// predicates must hold on these histories as well.
+pub fn mixed(p: &Profile) -> Profile {
+    let mut m = p.clone();
+    let up = |w: &mut u32, to: u32| {
+        if *w == 0 {
+            *w = to;
+        }
+    };
+    up(&mut m.w_discard, 2);
+    up(&mut m.w_minseg, 2);
+    up(&mut m.w_incdisc, 2);
+    up(&mut m.w_rewind, 2);
+    up(&mut m.w_clear, 1);
+    up(&mut m.w_truncate, 3);
+    up(&mut m.w_flush, 1);
+    up(&mut m.w_clone, 2);
+    up(&mut m.w_droparena, 2);
+    up(&mut m.w_detach, 4);
+    up(&mut m.w_dealloc, 4);
+    if m.w_reopen == 0 {
+        m.w_reopen = 3;
+        m.reopen_modes = &[(4, 0), (2, 1), (2, 2), (1, 3)];
+    }
+    m
+}
+
 pub fn strat_a(p: &Profile, tier: Tier) -> BoxedStrategy<CaseA> {
+    use proptest::prelude::*;
     let mut p = p.clone();
     if tier == Tier::Thorough {
         p.max_ops *= 3;
     }
-    case_strategy(&p)
+    prop_oneof![
+        7 => case_strategy(&p),
+        1 => case_strategy(&mixed(&p)),
+    ]
+    .boxed()
 }
 
